@@ -544,8 +544,19 @@ pub fn run(tier: &str, parity_odd: bool, shard: usize, nshards: usize, rep: &mut
         scripts.push(vec![*s]);
     }
     if tier == "thorough" {
-        // all pairs of deviations among the first 4 calls of each method
-        let s2 = singles(4);
+        // all pairs of deviations among the first 6 calls of each method, and all triples among the first 2
+        let s3 = singles(2);
+        for i in 0..s3.len() {
+            for j in i + 1..s3.len() {
+                for k in j + 1..s3.len() {
+                    let t = [s3[i], s3[j], s3[k]];
+                    if (t[0].0, t[0].1) != (t[1].0, t[1].1) && (t[1].0, t[1].1) != (t[2].0, t[2].1) && (t[0].0, t[0].1) != (t[2].0, t[2].1) {
+                        scripts.push(t.to_vec());
+                    }
+                }
+            }
+        }
+        let s2 = singles(6);
         for i in 0..s2.len() {
             for j in i + 1..s2.len() {
                 if (s2[i].0, s2[i].1) != (s2[j].0, s2[j].1) {
